@@ -14,7 +14,8 @@ pub const S2: char = '\u{e001}';
 /// function words, character classes), "xc" (compositions ONLY: no reduction, no function word - composed
 /// letters stay accented) and "xr" (reductions ONLY: nothing is composed, a free-standing mark stays a mark).
 /// And "xd": a BUNDLED language extended after construction through the same public calls (German plus an
-/// acute-accent composition and its folding), as an application does that needs a letter the shipped tables lack.
+/// acute-accent composition and its folding, and the ligature ĳ composed from and reduced back to "ij"), as an application
+/// does that needs a letter the shipped tables lack.
 /// And "xs": `Lang::new()` with nothing but a Snowball stemmer set through `set_stemmer` (Dutch, which the library
 /// does not bundle: its stemmer folds accents that no reduction table of the language folds first).
 pub const LANGS: [&str; 12] = ["none", "de", "en", "es", "fr", "pt", "ru", "xk", "xc", "xr", "xd", "xs"];
@@ -119,6 +120,12 @@ pub fn mk_lang(name: &str) -> Lang {
             // ... and re-registers two keys of the bundled table with another shape (last registration wins)
             lang.add_unicode_reduction("ß", "s");
             lang.add_unicode_reduction("ẞ", "S");
+            // ... and a ligature written either way: the two letters are composed into it and it is reduced back to
+            // exactly those two letters (a text of such letters comes out of normalisation as it went in)
+            lang.add_unicode_composition("ij", "ĳ");
+            lang.add_unicode_composition("IJ", "Ĳ");
+            lang.add_unicode_reduction("ĳ", "ij");
+            lang.add_unicode_reduction("Ĳ", "IJ");
             lang
         }
         "xr" => lang_reduce_only(),
@@ -213,6 +220,13 @@ fn lang_reduce_only() -> Lang {
     for (from, to) in XR_REDUCE.iter() {
         lang.add_unicode_reduction(from, to);
     }
+    // four function words; the longest of them ("außer") holds a letter that the table lengthens, so its normalised
+    // spelling is longer than every spelling the language was given
+    use lucid_suggest_core::lang::PartOfSpeech;
+    lang.add_pos("zu", PartOfSpeech::Preposition);
+    lang.add_pos("av", PartOfSpeech::Preposition);
+    lang.add_pos("på", PartOfSpeech::Preposition);
+    lang.add_pos("außer", PartOfSpeech::Particle);
     lang
 }
 
